@@ -205,6 +205,20 @@ register('C12',
          'Coq proof (list reasoning over the column list) + reflection of real Table objects evaluated by vm_compute',
          'DESIGN.md §7 C12')
 
+register('C14',
+         'PARTIAL. Coq theorems about the model generator `gen` (mirror of the PL/pgSQL templates) for every configuration: INSERT column '
+         'list and value list of all three upserts are aligned and complete, the excluded ARRAY is exactly the configured excluded set, '
+         'nothing is written without an active transaction or for a no-op update, and for the first event on a row within a '
+         'transaction (no validity) the appended row is exactly the object path\'s row (values, operation type, flags). The tie to the '
+         'code is a translator re-run on every check: the text emitted by CreateTriggerFunctionSQL for random configurations is parsed '
+         '(fail-closed) into the trigger AST, compared structurally with `gen cfg` inside Coq, and the PARSED program is executed on '
+         'random event sequences against the object-path specification. sync_trigger is run through a stub session on real tables. '
+         'The full statement (several events on one row in a transaction) is refuted by two recorded open findings.',
+         COMMON_NOTE + 'No PostgreSQL in the sandbox: texec, the hand-written semantics of the generated statement forms, is in the trusted '
+         'base; the findings on the trigger text cannot be validated against a server and stay open.',
+         'Coq proof about the generator + fail-closed parser of the generated PL/pgSQL + vm_compute structural comparison and execution of the parsed program',
+         'DESIGN.md §7 C14')
+
 ALL = ['C%02d' % i for i in range(1, 21)]
 
 
